@@ -67,6 +67,7 @@ def reparse_if_needed(student_code=None, report=MAIN_REPORT):
     if student_code is not None:
         if student_code in cait['cache']:
             cait['ast'] = cait['cache'][student_code]
+            cait['success'], cait['error'] = True, None
             return cait
         else:
             student_ast = _parse_source(student_code, report=report)
@@ -75,13 +76,19 @@ def reparse_if_needed(student_code=None, report=MAIN_REPORT):
         # Have we already parsed this code?
         if student_code in cait['cache']:
             cait['ast'] = cait['cache'][student_code]
+            cait['success'], cait['error'] = True, None
             return cait
         # Try to steal parse from Source module, if available
         if report[SOURCE_TOOL_NAME]['success']:
             student_ast = report[SOURCE_TOOL_NAME]['ast']
+            cait['success'], cait['error'] = True, None
         else:
             student_ast = _parse_source(student_code, report=report)
-    cait['ast'] = cait['cache'][student_code] = CaitNode(student_ast, report=report)
+    cait['ast'] = CaitNode(student_ast, report=report)
+    # Only successful parses are remembered, so that a cache hit always means
+    # that the most recent "parse" succeeded
+    if cait['success']:
+        cait['cache'][student_code] = cait['ast']
     return cait
 
 
